@@ -73,7 +73,7 @@ class Family:
         self.env: dict[str, Any] = {"Struct": Host(_struct_host), "isinstance": Host(self._isinstance), "int": int, "float": float, "issubclass": Host(self._issubclass)}
         self.env["ENDIANNESS_MAP"] = _module_constant(repo, "utils.py", "ENDIANNESS_MAP", {"sys": Sym("sys", {"byteorder": sys.byteorder})})
         self.env["EOF"] = _module_constant(repo, "types/base.py", "EOF", {})
-        for rel in ("types/base.py", "types/packed.py", "types/int.py", "utils.py"):
+        for rel in ["types/base.py", "types/packed.py", "types/int.py", "utils.py", *sorted({f.module.rel for f in self.slots.values() if f is not None})]:
             for q, fi in repo.module(rel).functions.items():
                 if "." not in q and q not in self.env:
                     self.env[q] = UserFunc(fi.node)
